@@ -218,11 +218,15 @@ class AdminLedgerDevice(LedgerDevice):
     # ---- signer attestation (powHSM)
     def powhsm_message(self, ud):
         if self.legacy_signer:
-            return self.byz.get("signer_header", b"HSM:SIGNER:5.4") + \
+            m = self.byz.get("signer_header_legacy", b"HSM:SIGNER:5.4") + \
                 self.byz.get("keys_hash", self.keys_hash()) + self.byz.get("signer_tail", b"")
-        return self.byz.get("signer_header", b"POWHSM:5.4::") + self.byz.get("platform", b"led") + \
+            cut = self.byz.get("signer_cut", 0)
+            return m[:len(m) - cut] if cut else m
+        m = self.byz.get("signer_header", b"POWHSM:5.4::") + self.byz.get("platform", b"led") + \
             ud + self.byz.get("keys_hash", self.keys_hash()) + self.best_block + self.last_tx + \
             self.timestamp.to_bytes(8, "big") + self.byz.get("signer_tail", b"")
+        cut = self.byz.get("signer_cut", 0)
+        return m[:len(m) - cut] if cut else m
 
     def _signer_attestation(self, apdu):
         if len(apdu) < 3:
